@@ -64,7 +64,8 @@ class RouterConn:
                 self.offered = protos
                 if self.fail_handshake:
                     self.hs_failed = True
-                    self._feed(b"HTTP/1.1 400 Bad Request\r\n\r\n")
+                    if self.fail_handshake != "close":         # ("close": the peer says nothing and closes the connection cleanly)
+                        self._feed(b"HTTP/1.1 400 Bad Request\r\n\r\n")
                     return out
                 sub = "wamp.2." + self.ser_id
                 self._feed(b"HTTP/1.1 101 Switching Protocols\r\nUpgrade: websocket\r\nConnection: Upgrade\r\nSec-WebSocket-Protocol: " + sub.encode() +
@@ -76,7 +77,8 @@ class RouterConn:
                 self.client_hs, self.buf = self.buf[:4], self.buf[4:]
                 if self.fail_handshake:
                     self.hs_failed = True
-                    self._feed(b"\x7f\x10\x00\x00")         # error reply: serializer unsupported
+                    if self.fail_handshake != "close":
+                        self._feed(b"\x7f\x10\x00\x00")         # error reply: serializer unsupported
                     return out
                 self._feed(bytes([0x7F, ((self.rs_maxlen_exp - 9) << 4) | RS_ID[self.ser_id], 0, 0]))
                 self.hs_done = True
